@@ -1,6 +1,6 @@
 (** Properties/C02.v — Every mistake in the input is reported, exactly once, in a single pass.
     Statements only; one level of a derived parser, for every item list (see C01.v). *)
-From DarlingModel Require Import Run.Recv Run.RecvProofs Run.LoopProofs Err.ErrTree.
+From DarlingModel Require Import Run.Recv Run.RecvProofs Run.LoopProofs Run.LevelProofs Err.ErrTree.
 Local Open Scope list_scope.
 
 (** Pushing an error never loses the ones recorded before it. *)
@@ -43,7 +43,25 @@ Theorem C02_loop_never_returns_early :
     core_step sugg sim interp_with interp_fn fields convs auk acc item = Err e -> acc = Err e.
 Proof. exact core_step_not_err. Qed.
 
+(** The level fails exactly through its single early return: with the bundle of ALL recorded
+    errors (the loop's, then the flatten member's, then the missing fields), in order - or,
+    nothing having been recorded, with the error of a default function. *)
+Theorem C02_level_returns_all_errors :
+  forall sugg sim interp_with interp_fn fields convs auk items cdef_of e,
+    parse_fields sugg sim interp_with interp_fn fields convs auk (state0 fields) items cdef_of (fun x => x) = Err e ->
+    (exists st1 st2 x xs,
+        core_loop sugg sim interp_with interp_fn fields convs auk (state0 fields) items = Ok st1
+        /\ require_fields sugg sim fields convs st1 = Ok st2
+        /\ ps_errs st2 = x :: xs /\ multiple (x :: xs) = POk e
+        /\ exists more, ps_errs st2 = spec_errs sugg sim interp_with interp_fn fields convs auk items ++ more)
+    \/ (exists st1 st2,
+          core_loop sugg sim interp_with interp_fn fields convs auk (state0 fields) items = Ok st1
+          /\ require_fields sugg sim fields convs st1 = Ok st2 /\ ps_errs st2 = []
+          /\ (cdef_of tt = Err e \/ exists cd, cdef_of tt = Ok cd /\ init_all interp_fn cd (ps_slots st2) fields = Err e)).
+Proof. exact parse_fields_err. Qed.
+
 Print Assumptions C02_push_keeps_earlier_errors.
+Print Assumptions C02_level_returns_all_errors.
 Print Assumptions C02_errors_are_per_item_contributions.
 Print Assumptions C02_one_error_per_mistaken_item.
 Print Assumptions C02_errors_in_input_order.
